@@ -86,8 +86,8 @@ def search(rep: C.Report, tier: str, broken):
     # the whole pipeline through WallGoManager (lengths entered in units of 1/Tnucl: manager.py buildGrid/buildEOM/setupWallSolver)
     import manager_common as MC
 
-    def mrun(u):
-        m = MC.new_manager(20, 1e-3, u=u)
+    def mrun(u, scalar_scale=False, first_step=None):
+        m = MC.new_manager(20, 1e-3, u=u, scalar_scale=scalar_scale, first_step=first_step)
         res = m.solveWall(MC.settings())
         Tn = 1.15 * u
         hy = m.hydrodynamics
@@ -123,6 +123,44 @@ def search(rep: C.Report, tier: str, broken):
             rep.violation(f"WallGoManager results are not covariant under the unit factor {u}: {bad}",
                           {"unit_factor": u, "base": mbase, "scaled": got, "differing": bad,
                            "how": "harness/manager_common.new_manager(20, 1e-3, u=u).solveWall(settings())"}, finding_key=f"C07:manager:{','.join(sorted(bad))}")
+    # the field variation scale given as ONE number instead of a one-entry list (both forms are documented): same results in every unit system
+    for u in ((1e2, 3e3) if tier == "quick" else (1e-2, 13.0, 1e2, 3e3, 1e4)):
+        rep.case(key=("manager-scalar-scale", u))
+        rep.count("manager runs with a scalar field scale")
+        try:
+            got = mrun(u, scalar_scale=True)
+        except Exception as ex:  # noqa: BLE001
+            rep.violation(f"WallGoManager pipeline with the field variation scale given as a single number fails under the unit factor {u}",
+                          {"unit_factor": u, "error": f"{type(ex).__name__}: {str(ex)[:300]}", "base": mbase,
+                           "how": "harness/manager_common.new_manager(20, 1e-3, u=u, scalar_scale=True).solveWall(settings())"},
+                          finding_key="C07:manager-scalar-scale:raises")
+            continue
+        bad = [q for q, t in (("vJ", 1e-6), ("vLTE", 2e-5), ("Tplus/Tn", 1e-3), ("Tminus/Tn", 1e-3)) if abs(mbase[q] - got[q]) > t * max(abs(mbase[q]), abs(got[q]))]
+        if mbase["success"] != got["success"] or got["vw"] is None or abs(mbase["vw"] - got["vw"]) > 2e-3:
+            bad.append("vw")
+        if bad:
+            rep.violation(f"WallGoManager results with a scalar field variation scale are not covariant under the unit factor {u}: {bad}",
+                          {"unit_factor": u, "base": mbase, "scaled": got, "differing": bad}, finding_key=f"C07:manager-scalar-scale:{','.join(sorted(bad))}")
+    # a configured starting step of the phase tracer (a dimensionless setting: "in units of the maximum step size dT"): same results in every unit system
+    for fs_ in ((0.5,) if tier == "quick" else (0.5, 1.0, 0.05)):
+        for u in ((1.0, 1e-2, 1e2) if tier == "quick" else (1.0, 1e-2, 0.2, 13.0, 1e2)):
+            rep.case(key=("manager-first-step", fs_, u))
+            rep.count("manager runs with a configured phaseTracerFirstStep")
+            try:
+                got = mrun(u, first_step=fs_)
+            except Exception as ex:  # noqa: BLE001
+                rep.violation(f"WallGoManager pipeline with phaseTracerFirstStep={fs_} (in units of dT) fails under the unit factor {u}",
+                              {"unit_factor": u, "phaseTracerFirstStep": fs_, "error": f"{type(ex).__name__}: {str(ex)[:300]}",
+                               "how": "harness/manager_common.new_manager(20, 1e-3, u=u, first_step=...).solveWall(settings())"},
+                              finding_key="C07:manager-first-step:raises")
+                continue
+            bad = [q for q, t in (("vJ", 1e-6), ("vLTE", 2e-5), ("Tplus/Tn", 1e-3)) if abs(mbase[q] - got[q]) > t * max(abs(mbase[q]), abs(got[q]))]
+            if got["vw"] is None or abs(mbase["vw"] - got["vw"]) > 2e-3:
+                bad.append("vw")
+            if bad:
+                rep.violation(f"WallGoManager results with phaseTracerFirstStep={fs_} differ from the default-step results under the unit factor {u}: {bad}",
+                              {"unit_factor": u, "phaseTracerFirstStep": fs_, "base": mbase, "scaled": got, "differing": bad},
+                              finding_key=f"C07:manager-first-step:{','.join(sorted(bad))}")
     # the SAME model object solved again in other units: parameters updated in place and setupThermodynamicsHydrodynamics re-run with all
     # inputs (Tn, phase guesses, variation scales) rescaled, as its docstring asks whenever details of the model change
     m = MC.new_manager(20, 1e-3, u=1.0)
